@@ -149,6 +149,22 @@ func (matrix *DenseInt16Matrix) SLICE(rfrom, rto, cfrom, cto int) *DenseInt16Mat
   m.cols = cto - cfrom
   return &m
 }
+func (matrix *DenseInt16Matrix) AsDenseInt16Vector() DenseInt16Vector {
+  if matrix.rows < matrix.rowMax || matrix.cols < matrix.colMax {
+    // matrix is a slice of a larger matrix, return the elements
+    // of the slice
+    n, m := matrix.Dims()
+    v := make([]int16, n*m)
+    for i := 0; i < n; i++ {
+      for j := 0; j < m; j++ {
+        v[i*m + j] = matrix.values[matrix.index(i, j)]
+      }
+    }
+    return DenseInt16Vector(v)
+  } else {
+    return DenseInt16Vector(matrix.values)
+  }
+}
 /* matrix interface
  * -------------------------------------------------------------------------- */
 func (matrix *DenseInt16Matrix) CloneMatrix() Matrix {
@@ -250,7 +266,7 @@ func (matrix *DenseInt16Matrix) Tip() {
   matrix.rowMax, matrix.colMax = matrix.colMax, matrix.rowMax
 }
 func (matrix *DenseInt16Matrix) AsVector() Vector {
-  return DenseInt16Vector(matrix.values)
+  return matrix.AsDenseInt16Vector()
 }
 func (matrix *DenseInt16Matrix) storageLocation() uintptr {
   return uintptr(unsafe.Pointer(&matrix.values[0]))
@@ -339,7 +355,7 @@ func (matrix *DenseInt16Matrix) IsSymmetric(epsilon float64) bool {
   return true
 }
 func (matrix *DenseInt16Matrix) AsConstVector() ConstVector {
-  return DenseInt16Vector(matrix.values)
+  return matrix.AsDenseInt16Vector()
 }
 /* implement ScalarContainer
  * -------------------------------------------------------------------------- */
